@@ -494,7 +494,7 @@ Lemma padded_buffer_invariant (bs : Z) (ds rest : list (cds A)) : 1 <= bs -> con
   exists st, pfold (map f) bs pinit ds = SNext st /\
     0 <= p_bufsize st <= bs /\ p_bufsize st = Z.of_nat (length (concat (p_buf st))).
 Proof.
-  intros Hbs Hc.
+  clear zero. intros Hbs Hc.
   assert (Hc' : consistentb ds = true).
   { destruct ds as [|d0 ds']; [reflexivity|]. cbn [consistentb app] in *.
     rewrite forallb_app in Hc. apply andb_true_iff in Hc. tauto. }
